@@ -399,6 +399,25 @@ class Sim:
                 for a in con.assertions.values():
                     a.assorter.set_tally_pool_means(cvr_list=self.cvr_list, use_style=self.use_style)
 
+    def revise_cvrs(self, revs):
+        """A corrected CVR export: the votes of some cards in some contest are replaced IN PLACE on the same CVR objects of
+        the same list (direct assignment, or CVR.update_votes with every old key spelled out), then margins and pool means
+        are recomputed by the same library calls.  revs = [[card index, contest id, new votes, 'assign'|'update'], ...]"""
+        with contextlib.redirect_stdout(self.sink):
+            for i, cid, new, how in revs:
+                card = self.spec["cards"][i]
+                old = card["votes"][cid]
+                if how == "update":
+                    full = {k: 0 for k in old}
+                    full.update(copy.deepcopy(new))
+                    self.cvr_list[i].update_votes({cid: full})
+                    card["votes"][cid] = copy.deepcopy(full)
+                else:
+                    self.cvr_list[i].votes[cid] = copy.deepcopy(new)
+                    card["votes"][cid] = copy.deepcopy(new)
+            self.set_margins()
+        return self
+
     def setup(self):
         with contextlib.redirect_stdout(self.sink):
             self.build_contests()
